@@ -88,5 +88,11 @@ CLAIMED["C15"] = dict(
     note="Trusted: pickletools descriptors and stack_after kinds; the encoder pattern table in sa/props/c15.py (an unrecognised encoder ends ANALYSIS-ERROR).",
 )
 
+CLAIMED["C18"] = dict(
+    technique="finite-domain abstract interpretation of the CLI's --inject and decompile arms (opaque pickle records; dumps/injections/interpreter constructions recorded, not performed) for all n<=3, all targets, all flag combinations; CFG dominance for the range guard; structural rules for the variable counter",
+    level="Decides that the --inject arm emits exactly n pickles with only the target injected once (with the requested flags) and everything else dumped verbatim in order, that an out-of-range target returns non-zero having written nothing, and that the decompile arm gives every stacked pickle a fresh block of `_var` ids and its own result name on both the trace and non-trace paths. Byte identity of untouched pickles is C06's, validity of each program C05's.",
+    note="Trusted: sa/minieval.py; that 3 stacked pickles exercise every index relation the arm's slices/loops can distinguish (the arm only uses target, target+1 and the ends).",
+)
+
 _NOT_YET = "checker not built yet in this session (planned per DESIGN.md section 3); nothing is claimed until it exists"
 NOT_APPLICABLE = {p: _NOT_YET for p in [f"C{i:02d}" for i in range(1, 20)]}
